@@ -88,6 +88,7 @@ class FFDirector(SectionLineParser):
         self.current_block = None
         self.current_link = None
         self.current_modification = None
+        self._link_seen = False
         self.blocks = collections.OrderedDict()
         self.links = []
         self.modifications = []
@@ -172,6 +173,9 @@ class FFDirector(SectionLineParser):
             self.current_link.citations.update(self.citations)
             self.current_link.make_edges_from_interactions()
             self.force_field.links.append(self.current_link)
+            # The link is stored. Forget it, otherwise the end of a later
+            # section that is not a link would store it a second time.
+            self.current_link = None
 
         if self.current_modification is not None:
             # add FF wide citations
@@ -193,13 +197,14 @@ class FFDirector(SectionLineParser):
     def has_context(self):
         open_contexts = [
             self.current_block, self.current_link, self.current_modification]
-        return open_contexts != ([None] * len(open_contexts))
+        return self._link_seen or open_contexts != ([None] * len(open_contexts))
 
     def _new_block(self):
         self.current_block = Block(force_field=self.force_field)
 
     def _new_link(self):
         self.current_link = Link(force_field=self.force_field)
+        self._link_seen = True
 
     def _new_modification(self):
         self.current_modification = Modification(force_field=self.force_field)
